@@ -84,6 +84,28 @@ CHECKS = {
         'Trusts: canonicalisation to (key, tag, value) lists (no accessor reads anything else); the OrderedDict model. '
         'Cross-kind numeric equalities and nan defaults are accepted either way.',
         'DESIGN.md 3 C14'),
+    'C04': (
+        'exhaustive enumeration of every tag of the tag alphabet at every node (pairs of nodes in thorough) of valid and '
+        'mutated documents on the real load function, observing the constructor log, the value and a canary module',
+        'For 12 models with Any / untyped / _yatiml_extra positions (all classes registered, one never reachable from '
+        'the document type) every tag (class names, unknown, non-specific, 11 core tags, 5 !!python/* tags) is injected '
+        'at every node of every base document; the constructor log (also of loads that fail) may only contain '
+        'admissible classes with type-checked arguments and must equal the reference\'s calls for accepted documents, '
+        'values below Any positions must be plain data equal to the load without the tag, and the canary package must '
+        'never be imported.',
+        'Trusts: constructor logging of the generated classes; the admissibility computation and type-directed position '
+        'walk in mc/props/C04.py; a load that fails on a !!python/* tag is accepted as fail-safe.',
+        'DESIGN.md 3 C04'),
+    'C16': (
+        'exhaustive enumeration of helper x arguments x node on the real UnknownNode (obtained through the real '
+        'recognition pipeline), against a predicate written from the docstrings / the reference recognition rules',
+        'Every require_* helper with every argument of the alphabets (2 attribute names, 11 scalar values, 21 types of '
+        'the type language with registered classes) is called on every tree with <= 3 nodes and on attribute mappings '
+        'holding 32 value shapes; accept/reject must equal the documented condition, no other exception may be raised '
+        'and the node must be unchanged.',
+        'Trusts: the docstring predicate in mc/props/C16.py and mc/refsem.py for typed attributes; mappings with a '
+        'duplicated attribute name are outside the stated domain.',
+        'DESIGN.md 3 C16'),
 }
 
 NOT_BUILT = {}
